@@ -166,6 +166,8 @@ impl<'template, 'env> State<'template, 'env> {
             loaded_templates: self.loaded_templates.len(),
             #[cfg(not(feature = "multi_template"))]
             loaded_templates: 0,
+            frame_closures: self.ctx.verif_frame_closures(),
+            frame_loops: self.ctx.verif_frame_loops(),
         }
     }
 
